@@ -277,7 +277,8 @@ func rulesGen(label string) *rapid.Generator[[]Rule] {
 		n := rapid.IntRange(1, 3).Draw(t, label+"n")
 		var l []Rule
 		for i := 0; i < n; i++ {
-			l = append(l, Rule{Token: rapid.SampledFrom(tokens).Draw(t, label+"tok"), Out: outGen.Draw(t, label+"out")})
+			// the empty token is found in every address, the null reverse-path included
+			l = append(l, Rule{Token: rapid.SampledFrom(append([]string{""}, tokens...)).Draw(t, label+"tok"), Out: outGen.Draw(t, label+"out")})
 		}
 		return l
 	})
@@ -381,6 +382,9 @@ func localGen(t *rapid.T, label string) string {
 
 var txnGen = rapid.Custom(func(t *rapid.T) Txn {
 	x := Txn{Sender: localGen(t, "s") + "@" + rapid.SampledFrom([]string{"a.test", "a.test", "badorigin.test"}).Draw(t, "sdom")}
+	if rapid.IntRange(0, 7).Draw(t, "nullpath") == 0 {
+		x.Sender = "" // MAIL FROM:<>, the null reverse-path of bounces
+	}
 	n := rapid.IntRange(1, 4).Draw(t, "nrcpt")
 	for i := 0; i < n; i++ {
 		x.Rcpts = append(x.Rcpts, localGen(t, "r")+"@"+rapid.SampledFrom([]string{"a.test", "a.test", "rejected.test", "discard.test"}).Draw(t, "rdom"))
@@ -392,7 +396,7 @@ var txnGen = rapid.Custom(func(t *rapid.T) Txn {
 var prop = hx.Prop[Case]{
 	ID: pid, Name: "hooks",
 	Rule: "Lua scripts generated from a handler grammar (any subset of the five handlers; before-handlers are decision tables keyed on a " +
-		"token in the sender / last recipient whose outcomes are allow, deny, deny(code,msg), defer, nil, no return, number/string/table/" +
+		"token (sometimes the empty one, found in every address) in the sender (sometimes the null reverse-path <>) / last recipient whose outcomes are allow, deny, deny(code,msg), defer, nil, no return, number/string/table/" +
 		"boolean/wrong userdata, error(), runtime error; before.message_stored keeps, rewrites any subset of mailboxes/from/to/subject, " +
 		"returns a new inbound_message, returns garbage, raises, or mutates the passed message (incl. nested msg.from.address) and then " +
 		"raises/returns garbage/nil; optional Go listeners before and after the Lua one) run against SMTP dialogues whose domain policy " +
@@ -526,6 +530,9 @@ func session(w *hx.World, c Case, cfg hx.Cfg, si int, res *result) {
 	for ti, x := range c.Sessions[si] {
 		// per-session unique addresses: the session index is part of the local part
 		uniq := func(a string) string {
+			if a == "" {
+				return ""
+			}
 			l, d := hx.SplitAddr(a)
 			return fmt.Sprintf("%ss%dt%d@%s", l, si, ti, d)
 		}
